@@ -278,8 +278,9 @@ def run(index, tier="quick", seed=0) -> Result:
                             f"{'it' if len(loose) == 1 else 'them'} to the axes it compares: wrong whenever only the compared axes are equal")
                 else:
                     res.ok("BR-2", k, sample={"shortcut": k, "ignored": sorted(missing), "tied_by_test": sorted(tied)})
-    if nb2 == 0:
-        res.ok("BR-2", "no degenerate-case shortcut returns in the curved classes", nontrivial=False)
+    if not any(f_.rule == "BR-2" for f_ in res.findings):
+        res.ok("BR-2", "every degenerate-case shortcut of the curved classes ties down what it ignores", nontrivial=False,
+               sample={"shortcut_returns_examined": nb2})
     # ------------------------------------------------------------ SORT-1
     for cname, member, axes in (("Ellipse", "eccentricity", ("a", "b")), ("Ellipse", "perimeter", ("a", "b")),
                                 ("Ellipsoid", "surface_area", ("a", "b", "c"))):
